@@ -88,13 +88,17 @@ def terminate(mode):
 
 
 done = 0
-for i in range(3):
+NST = cfg.get("nstmts") or 3
+for i in range(NST):
     if i == cfg["k"]:
         if terminate(cfg["mode"]):
             break
     v = PubVal(10 + i)
-    w = v * v
+    if cfg.get("nstmts") and i > 0 and i % (3 + (cfg.get("shape") or 0)) != 1:
+        w = v * (v + w + (i % 5))       # long scripts: constraints of varying size (1-3 terms per side), several mixes
+    else:
+        w = v * v
     done += 1
 else:
-    if cfg["k"] == 3:
+    if cfg["k"] == NST:
         terminate(cfg["mode"])
